@@ -173,3 +173,70 @@ Proof.
 Qed.
 
 End Assembly.
+
+(* ---- values that change in place (hset / hdel / aset at any depth) ---- *)
+
+Definition ktexts (fs : list (key * value)) : list (list Z) := map (fun kv => key_text (fst kv)) fs.
+Definition all_sym (fs : list (key * value)) : Prop :=
+  forall kv, In kv fs -> exists t, fst kv = KSym t.
+
+Lemma fields_set_texts : forall fs t x, all_sym fs ->
+  ktexts (fields_set fs (KSym t) x) = if existsb (str_eqb t) (ktexts fs) then ktexts fs else ktexts fs ++ [t].
+Proof.
+  induction fs as [|[k y] fs IH]; intros t x Hs; simpl.
+  - reflexivity.
+  - destruct (Hs (k, y) (or_introl eq_refl)) as [s Hk]. simpl in Hk. subst k. simpl.
+    destruct (str_eqb t s) eqn:E; simpl.
+    + reflexivity.
+    + fold (ktexts (fields_set fs (KSym t) x)). fold (ktexts fs).
+      rewrite IH by (intros kv Hin; apply Hs; right; exact Hin).
+      destruct (existsb (str_eqb t) (ktexts fs)); reflexivity.
+Qed.
+
+(* hset keeps the field names distinct: an existing name keeps its place, a new one goes last *)
+Theorem hset_keeps_names_distinct : forall fs t x, all_sym fs ->
+  NoDup (ktexts fs) -> NoDup (ktexts (fields_set fs (KSym t) x)).
+Proof.
+  intros fs t x Hs Hnd. rewrite fields_set_texts by exact Hs.
+  destruct (existsb (str_eqb t) (ktexts fs)) eqn:E; [exact Hnd|].
+  apply NoDup_snoc; [exact Hnd|]. intro Hin.
+  assert (existsb (str_eqb t) (ktexts fs) = true).
+  { apply existsb_exists. exists t. split; [exact Hin|apply str_eqb_refl]. }
+  congruence.
+Qed.
+
+Lemma fields_del_incl : forall fs k t, In t (ktexts (fields_del fs k)) -> In t (ktexts fs).
+Proof.
+  induction fs as [|[k' y] fs IH]; intros k t H; simpl in *; [exact H|].
+  destruct (key_eqb k k'); simpl in *; [right; exact H|].
+  destruct H as [H|H]; [left; exact H|right; apply (IH k); exact H].
+Qed.
+
+Theorem hdel_keeps_names_distinct : forall fs k, NoDup (ktexts fs) -> NoDup (ktexts (fields_del fs k)).
+Proof.
+  induction fs as [|[k' y] fs IH]; intros k Hnd; simpl; [constructor|].
+  inversion Hnd as [|? ? Hn Hnd']; subst.
+  destruct (key_eqb k k'); [exact Hnd'|]. simpl. constructor.
+  - intro Hin. apply Hn. apply (fields_del_incl fs k). exact Hin.
+  - apply IH. exact Hnd'.
+Qed.
+
+(* the encoding of an object after ANY history of in-place changes is the encoding of the value
+   those changes produce: it reads back as that value (the encoder has no memory) *)
+Section MutationOracles.
+Variable fmt : bool -> Z -> list Z.
+Variable pf : list Z -> Z.
+Hypothesis pf_fmt : forall sci b, float_finite b = true ->
+  is_json_number (float_token fmt sci b) = true -> pf (float_token fmt sci b) = b.
+Hypothesis fmt_e : forall b, float_finite b = true -> has_dot_e (fmt true b) = true.
+
+Theorem mutation_roundtrip : forall ops v0 v, run_ops ops v0 = Some v ->
+  wf fmt v = true ->
+  json_parse (to_json fmt v) = Some (tree_of fmt v) /\
+  (data fmt v = true -> no_reserved_keys v = true -> unjson pf (to_json fmt v) = Ok (norm v)).
+Proof.
+  intros ops v0 v _ Hw. split.
+  - apply json_wellformed. exact Hw.
+  - intros Hd Hr. apply (unjson_json fmt pf pf_fmt fmt_e); assumption.
+Qed.
+End MutationOracles.
